@@ -438,9 +438,57 @@ theorem endBatch_xinv (e : Nat) (s : Srv) (hx : XInvE e s) (l : Nat) : XInvE e (
     (fun s' hp h => ⟨(releaseHead_drain s' l).trans hp, xinvE_releaseHead e s' h l⟩) (s.done l).length s rfl hx
   exact ⟨this.2, this.1⟩
 
+theorem xinvE_drainBatch (e : Nat) (s : Srv) (hg : GInv s) (hx : XInvE e s) (l : Nat) (hex : s.exited l = false ∨ l = e) :
+    GInv (drainBatch s l) ∧ XInvE e (drainBatch s l) := by
+  unfold drainBatch
+  have hexi : ∀ (k : Nat) (s0 : Srv), (iterate (fun s => runHead s l) k s0).exited = s0.exited := by
+    intro k; induction k with
+    | zero => intro s0; rfl
+    | succ k ih =>
+      intro s0
+      rw [show iterate (fun s => runHead s l) (k + 1) s0 = iterate (fun s => runHead s l) k (runHead s0 l) from rfl, ih]
+      cases hq : s0.q l with
+      | nil => rw [runHead_nil s0 l hq]
+      | cons t rest =>
+        rw [runHead_cons s0 l t rest hq]
+        by_cases ht : t = .srvDtor
+        · subst ht
+          have : ∀ (cs : List Nat) (s1 : Srv), (cs.foldl dtorOne s1).exited = s1.exited := by
+            intro cs; induction cs with
+            | nil => intro s1; rfl
+            | cons c cs ih2 => intro s1; exact (ih2 _).trans (ext_dtorOne s1 c).exited
+          simp only [runTask, destroyServer]
+          split
+          · rfl
+          · exact this _ _
+        · exact ((ext_pop s0 l t rest).trans (ext_runTask _ l t ht)).exited
+  obtain ⟨⟨hg2, hex2⟩, hx2⟩ := xinvE_iterate e (fun s => runHead s l) (fun s' => GInv s' ∧ s'.exited = s.exited)
+    (fun s' hp hxs => ⟨⟨ginv_runHead s' hp.1 l, (hexi 1 s').trans hp.2⟩,
+      xinvE_runHead e s' hp.1 hxs l (by rw [hp.2]; exact hex)⟩)
+    (s.q l).length s ⟨hg, rfl⟩ hx
+  exact ⟨ginv_endBatch _ hg2 l, (endBatch_xinv e _ hx2 l).1⟩
+
+theorem drainBatch_io (s : Srv) (hg : GInv s) (l : Nat) (hl : l ≠ 0) (ha : s.alive = false) :
+    (drainBatch s l).q l = [] ∧ (drainBatch s l).done l = [] := by
+  unfold drainBatch
+  obtain ⟨hq3, hd3⟩ := endBatch_q_done (iterate (fun s => runHead s l) (s.q l).length s) l
+  exact ⟨by rw [hq3]; exact iterate_runHead_io l hl _ s hg ha rfl, hd3⟩
+
+theorem xinvE_drainAll (s : Srv) (l : Nat) (f : Nat) : ∀ s, GInv s → XInvE l s → XInvE l (drainAll l f s) := by
+  induction f with
+  | zero => intro s _ hx; exact hx
+  | succ f ih =>
+    intro s hg hx
+    obtain ⟨h1, h2⟩ := xinvE_drainBatch l s hg hx l (Or.inr rfl)
+    simp only [drainAll]; split
+    · exact h2
+    · exact ih _ h1 h2
+
 theorem xinv_exit (s : Srv) (hg : GInv s) (hx : XInv s) (l : Nat) (hio : l ≠ 0 → s.alive = false ∧ l ≤ s.L) :
-    XInv (endBatch (iterate (fun s => runHead s l) (if s.drain then (s.q l).length else 0)
-      { s with exited := fun i => if i = l then true else s.exited i }) l) := by
+    XInv (if s.drain then
+      (if s.drainRepeats then drainAll l 3 { s with exited := fun i => if i = l then true else s.exited i }
+       else drainBatch { s with exited := fun i => if i = l then true else s.exited i } l)
+    else { s with exited := fun i => if i = l then true else s.exited i }) := by
   -- the loop is marked as exited; while its final drain runs it is exempt from the "exited loops are empty" clause
   have hx1 : XInvE l { s with exited := fun i => if i = l then true else s.exited i } := by
     refine ⟨?_, ?_, hx.x3, hx.x4⟩
@@ -456,23 +504,35 @@ theorem xinv_exit (s : Srv) (hg : GInv s) (hx : XInv s) (l : Nat) (hio : l ≠ 0
   have hg1 : GInv { s with exited := fun i => if i = l then true else s.exited i } := ginv_exited s hg _
   generalize hs1 : ({ s with exited := fun i => if i = l then true else s.exited i } : Srv) = s1 at hx1 hg1 ⊢
   have hs1d : s1.drain = s.drain := by rw [← hs1]
-  have hs1q : s1.q = s.q := by rw [← hs1]
   have hs1a : s1.alive = s.alive := by rw [← hs1]
-  obtain ⟨⟨hg2, hd2⟩, hx2⟩ := xinvE_iterate l (fun s => runHead s l) (fun s' => GInv s' ∧ s'.drain = s.drain)
-    (fun s' hp hxs => ⟨⟨ginv_runHead s' hp.1 l, (runHead_drain s' hp.1 l).trans hp.2⟩, xinvE_runHead l s' hp.1 hxs l (Or.inr rfl)⟩)
-    (if s.drain then (s.q l).length else 0) s1 ⟨hg1, hs1d⟩ hx1
-  obtain ⟨hx3, hd3⟩ := endBatch_xinv l _ hx2 l
-  obtain ⟨hq3, hdone3⟩ := endBatch_q_done (iterate (fun s => runHead s l) (if s.drain then (s.q l).length else 0) s1) l
-  refine ⟨hx3.x1, ?_, hx3.x3, hx3.x4⟩
-  intro hd l' h0 _ hex
-  by_cases hl : l' = l
-  · subst hl
-    refine ⟨?_, hdone3⟩
-    rw [hq3]
-    have hsd : s.drain = true := by rw [← hd2, ← hd3]; exact hd
-    simp only [hsd, if_true]
-    exact iterate_runHead_io l' h0 _ s1 hg1 (hs1a.trans (hio h0).1) (by rw [hs1q])
-  · exact hx3.x2 hd l' h0 hl hex
+  -- from "exempt" back to the plain invariant, given that the loop's own queue and batch are empty
+  have close : ∀ s2 : Srv, XInvE l s2 → (l ≠ 0 → s2.q l = [] ∧ s2.done l = []) → XInv s2 := by
+    intro s2 h2 hemp
+    refine ⟨h2.x1, ?_, h2.x3, h2.x4⟩
+    intro hd l' h0 _ hex
+    by_cases hl : l' = l
+    · subst hl; exact hemp h0
+    · exact h2.x2 hd l' h0 hl hex
+  cases hd : s.drain with
+  | false =>
+    simp only [Bool.false_eq_true, if_false]
+    refine ⟨hx1.x1, ?_, hx1.x3, hx1.x4⟩
+    intro hd' ; rw [hs1d, hd] at hd'; cases hd'
+  | true =>
+    simp only [if_true]
+    have hb := xinvE_drainBatch l s1 hg1 hx1 l (Or.inr rfl)
+    split
+    · -- repeated drain
+      by_cases hl0 : l = 0
+      · subst hl0
+        exact close _ (xinvE_drainAll s1 0 3 s1 hg1 hx1) (fun h => absurd rfl h)
+      · obtain ⟨hq, hdn⟩ := drainBatch_io s1 hg1 l hl0 (hs1a.trans (hio hl0).1)
+        have : drainAll l 3 s1 = drainBatch s1 l := by simp only [drainAll, hq, if_true]
+        rw [this]
+        exact close _ hb.2 (fun _ => ⟨hq, hdn⟩)
+    · by_cases hl0 : l = 0
+      · subst hl0; exact close _ hb.2 (fun h => absurd rfl h)
+      · exact close _ hb.2 (fun _ => drainBatch_io s1 hg1 l hl0 (hs1a.trans (hio hl0).1))
 
 theorem xinv_step (s : Srv) (hg : GInv s) (hinj : Function.Injective s.nameOf) (hx : XInv s) (a : Action) : XInv (step s a) := by
   cases a with
@@ -585,7 +645,7 @@ theorem xinv_run (as : List Action) : ∀ s, GInv s → Function.Injective s.nam
 theorem run_drain (as : List Action) : ∀ s, (run s as).drain = s.drain := by
   induction as with
   | nil => intro s; rfl
-  | cons a as ih => intro s; exact (ih (step s a)).trans (same_step s a).2.2
+  | cons a as ih => intro s; exact (ih (step s a)).trans (same_step s a).2.2.1
 
 /-- with the final drain: the server destroyed, every io loop out of `loop()`, the base loop's queue run - then nothing
 is left anywhere -/
@@ -635,6 +695,6 @@ theorem goodSched_io (as : List Action) : ∀ s, GInv s → XInv s → Function.
     have h1 : ∀ l, a = .loopGone l → goneReady s l = true → StrandOK s l := fun l _ hr => strandOK_io s hg hx hL hd l hr
     have hs := same_step s a
     exact ⟨h1, ih (step s a) (ginv_step s hg hinj a h1) (xinv_step s hg hinj hx a) (by rw [hs.2.1]; exact hinj)
-      (by rw [hs.1]; exact hL) (by rw [hs.2.2]; exact hd)⟩
+      (by rw [hs.1]; exact hL) (by rw [hs.2.2.1]; exact hd)⟩
 
 end MuduoVerif.Owner
